@@ -10,6 +10,7 @@ pub mod parsers;
 pub mod sched;
 pub mod rtrnet;
 pub mod clibin;
+pub mod httpsrv;
 pub mod c01;
 pub mod c02;
 pub mod c03;
@@ -20,6 +21,7 @@ pub mod c07;
 pub mod c08;
 pub mod c09;
 pub mod c10;
+pub mod c10h;
 pub mod c11;
 pub mod c12;
 pub mod c13;
